@@ -1,6 +1,6 @@
 (* C11 -- Ill-formed netlists are rejected when they are built or checked.
    Statements only; proofs in Proofs/C11/*.v.  The model (Model/Build.v) is hand-written from py4hw/base.py and
-   py4hw/debug.py (as of /repo commits a702577 and 0845e1f) and is run against the real classes on every check
+   py4hw/debug.py (as of /repo commits a702577 + 0cca5f4 and 0845e1f) and is run against the real classes on every check
    (py/props/c11.py): same operation sequences, compared after every call on raise/no-raise and on every attribute
    (children, _wires, port lists, source, sinks).
    `run ops` = the state after executing ANY list of construction calls from the empty heap, legal or not. *)
@@ -105,7 +105,10 @@ Example C11_failed_rename_harmless :
   dump s = dump s0 /\
   snd (step s (Rename 0 3%Z)) = Ok /\
   tget (owires (exec s (Rename 0 3%Z)) 0) 2%Z = Some 1 /\ tget (owires (exec s (Rename 0 3%Z)) 0) 3%Z = Some 0 /\
-  snd (step s (Rename 0 2%Z)) = Raise (CWire 0 2%Z).
+  snd (step s (Rename 0 2%Z)) = Raise (CWire 0 2%Z) /\
+  (* moving a wire onto its own slot is not a collision: rename to the current name, reparent to the current parent *)
+  snd (step s (Rename 0 1%Z)) = Ok /\ snd (step s (Reparent 1 0)) = Ok /\ snd (step s (ReparentAndRename 1 0 2%Z)) = Ok /\
+  dump (exec s (Reparent 1 0)) = dump s.
 Proof. exact failed_rename_harmless. Qed.
 (* a wire driven by an InOutPort of a primitive block and read by an in-port is accepted *)
 Example C11_inout_driver_accepted : checkIntegrity (run ops_inout) 0 = IOk.
